@@ -8,6 +8,7 @@ package fn
 
 //@ func FindRoot(fn, fn_dx, initialX, minX, maxX, tolerance, convergenceLimit, maxIterations) returns (x, delta)
 //@   locals maxDelta, minDelta, iteration, trialXs, trialDeltas, halvingX, bisectionX, deriv, newtonRaphsonX, minTrialX, minTrialDelta, maxTrialX, maxTrialDelta, hitConvergenceLimit, trial, trialDelta
+//@   loopsigs 7505cdc2 0d591bf0
 //@   safety C18
 //@   requires minX <= initialX && initialX <= maxX
 //@   requires fn(minX) <= 0 && 0 <= fn(maxX) && fn(minX) < fn(maxX)
@@ -33,6 +34,7 @@ package fn
 //@ # (first half of the property statement).
 //@ func FindRoot#monotone(fn, fn_dx, initialX, minX, maxX, tolerance, convergenceLimit, maxIterations) returns (x, delta)
 //@   locals maxDelta, minDelta, iteration, trialXs, trialDeltas, halvingX, bisectionX, deriv, newtonRaphsonX, minTrialX, minTrialDelta, maxTrialX, maxTrialDelta, hitConvergenceLimit, trial, trialDelta
+//@   loopsigs 7505cdc2 0d591bf0
 //@   requires minX <= initialX && initialX <= maxX
 //@   requires fn(minX) <= 0 && 0 <= fn(maxX) && fn(minX) < fn(maxX)
 //@   requires tolerance > 0 && maxIterations >= 1
